@@ -17,4 +17,21 @@ CHECKS['C02'] = dict(
     technique='Coq proof (reflection + bit-vector lemmas) + extracted-model differential against pkg/x25, pkg/frame',
 )
 
+CHECKS['C01'] = dict(
+    text='Kernel-checked proof that, for every well-formed v1/v2 frame (all header bytes, ids, payloads of 0..255 bytes, link id, 48-bit timestamp, signature), the bytes frame.Writer hands to the transport equal an arithmetic (div/mod) rendering of the MAVLink layout, that reading those bytes back — for every splitting into transport reads — returns the frame field for field and leaves what followed, and that a v1 frame with id > 255 is refused; tie to the code: differential run of frame.Writer/Reader vs the extracted model on boundary-value frames.',
+    note='Trusted: Coq kernel, extraction, OCaml driver, Go harness; bufio modelled; payload > 255 bytes and v2 ids >= 2^24 are outside the stated domain.',
+    technique='Coq proof (layout = arithmetic spec, read-after-write by simulation with a flat stream spec) + extracted-model differential')
+CHECKS['C06'] = dict(
+    text='Kernel-checked characterisation of the keyed branch of the reader model (delivered iff v2, signed, signature = first 48 bits of SHA-256 over the specified bytes under the configured key, inside the window), corollaries for v1/unsigned/any signature mismatch, and that keyed writers produce frames that verify; SHA-256 is a Gallina implementation validated against crypto/sha256 by the differential run (every single-bit alteration of sampled signed frames, wrong keys, writer outputs).',
+    note='Collision resistance of the 48-bit SHA-256 prefix is assumed, not proved. Trusted: Coq kernel, extraction, driver, harness.',
+    technique='Coq proof (iff-characterisation of check_key, writer/reader composition) + extracted-model differential incl. Gallina SHA-256')
+CHECKS['C07'] = dict(
+    text='Kernel-checked proof that the reader model refuses exactly the correctly signed frames more than 10^6 ticks older than the newest accepted one, for all timestamps and all histories (equivalence with a register-free specification by induction over the history), and that outgoing ticks are ns/10000 and monotone in the clock; tied to frame.Reader by exhaustive boundary-alphabet sequences and random walks of signed frames.',
+    note='Trusted: Coq kernel, extraction, driver, harness; Go monotonic clock.',
+    technique='Coq proof (induction over timestamp histories, lia) + extracted-model differential')
+CHECKS['C09'] = dict(
+    text='Kernel-checked proofs on the writer model: initialisation validation, every originated frame carries configured ids/version/zero compat flags/correct checksum (and signature block with a key), and for ANY history of accepted and rejected writes the emitted sequence numbers are s, s+1, ... mod 256 (induction over the history); tied to streamwriter.Writer and frame.Writer.WriteMessage by differential histories of 300-700 writes with rejected writes interleaved.',
+    note='Trusted: Coq kernel, extraction, driver, harness. Node-level origination (heartbeats, stream requests) is exercised by the scenario checks of C11/C16.',
+    technique='Coq proof (induction over write histories) + extracted-model differential')
+
 NOT_APPLICABLE = [{'property_id': p, 'reason': PENDING} for p in ALL if p not in CHECKS]
